@@ -97,34 +97,42 @@ def run(fn, w=None):
     return val, t
 
 
-def sampling_matrix(draw, per_call):
-    """Exact sampling matrix of a sampler that draws several independent samples per call.
+def exact_covariance(draw, per_call=(2,)):
+    """Exact covariance of a sampler that draws several independent (possibly mirrored) samples per call.
 
-    draw(n) -> array (n, p): the n (un-mirrored) residual samples of one call that draws n samples.
-    Calibration: draw(1) with all normals 0 gives K = normals per sample and the request pattern; the residual
-    must then be exactly representable as r = S w.  One call draw(K) with the tape vec(I_K) (sample i gets
-    w = e_i) returns S^T row by row, provided every sample consumes its own consecutive block of K normals in
-    the calibrated pattern - which is verified (else TapeError).  `per_call` = list of sample counts that the
-    sampler is additionally exercised with under the zero tape (consumption must scale linearly).
-    Returns (S, K, r0) with r0 the residual for w = 0 (shape (p,)).
+    draw(n) -> array (n * mult, p): ALL residual samples returned by one call that draws n samples (mult = 2 for
+    a sampler that returns every sample together with its mirror image, 1 otherwise; any order).
+    Calibration: draw(1) with all normals 0 gives K = normals per sample, the request pattern and mult; the
+    residuals must be linear in the white noise, r = +-S w.  One call draw(K) with the tape vec(I_K) (sample i
+    gets w = e_i) returns the columns of S (mult times each, up to sign) provided every sample consumes its own
+    consecutive block of K normals in the calibrated pattern - which is verified (else TapeError).  Then
+    S S^T = rows^T rows / mult, independent of the order and of the signs of the rows.
+    `per_call` = sample counts that the sampler is additionally exercised with under the zero tape (consumption
+    must scale linearly).  Returns (C, K, mult, rmax0) with rmax0 = max |residual| for w = 0 (must be 0 for a
+    linear sampler).
     """
     r0, t0 = run(lambda: np.asarray(draw(1)))
-    if r0.ndim != 2 or r0.shape[0] != 1:
-        raise TapeError(f"draw(1) must return an array of shape (1, p); got {r0.shape}")
+    if r0.ndim != 2 or r0.shape[0] < 1:
+        raise TapeError(f"draw(1) must return an array of shape (mult, p); got {r0.shape}")
+    mult = r0.shape[0]
     K = t0.pos
     if K == 0:
         raise TapeError("sampler drew no normals through nifty.re.evi.random_like (primitive bypassed?)")
+    rmax0 = float(np.max(np.abs(r0))) if r0.size else 0.0
     for n in per_call:
         rn, tn = run(lambda n=n: np.asarray(draw(n)))
         if tn.pos != n * K or tn.requests != t0.requests * n:
             raise TapeError(f"{n} samples consume {tn.pos} normals / pattern {tn.requests}; one sample: {K} / "
                             f"{t0.requests}")
+        if rn.shape != (n * mult, r0.shape[1]):
+            raise TapeError(f"draw({n}) returned shape {rn.shape}, expected {(n * mult, r0.shape[1])}")
+        rmax0 = max(rmax0, float(np.max(np.abs(rn))) if rn.size else 0.0)
     rows, t1 = run(lambda: np.asarray(draw(K)), np.eye(K).reshape(-1))
     if t1.requests != t0.requests * K:
         raise TapeError(f"request pattern of the K-sample run differs: {t1.requests} vs {K} x {t0.requests}")
-    if rows.shape != (K, r0.shape[1]):
-        raise TapeError(f"draw(K) returned shape {rows.shape}, expected {(K, r0.shape[1])}")
-    return (rows - r0[0][None, :]).T, K, r0[0]
+    if rows.shape != (K * mult, r0.shape[1]):
+        raise TapeError(f"draw(K) returned shape {rows.shape}, expected {(K * mult, r0.shape[1])}")
+    return rows.T @ rows / mult, K, mult, rmax0
 
 
 def selftest():
